@@ -56,7 +56,7 @@ type Client struct {
 }
 
 func NewClient(c net.Conn, binary bool) *Client {
-	return &Client{C: c, R: bufio.NewReaderSize(c, 1<<16), Binary: binary, Timeout: 20 * time.Second, nextOpq: 0x1000}
+	return &Client{C: c, R: bufio.NewReaderSize(c, 1<<16), Binary: binary, Timeout: 120 * time.Second, nextOpq: 0x1000}
 }
 
 func (cl *Client) Close() { cl.C.Close() }
